@@ -700,6 +700,16 @@ func run() int {
 		addViol(f.idx, f.v)
 	}
 	rep.Set("retention_calls", rcalls)
+	cf, ccalls, cerr := runClient(dir)
+	if cerr != nil {
+		fmt.Fprintln(os.Stderr, "client phase:", cerr)
+		return 2
+	}
+	evaluations += int64(ccalls)
+	for _, f := range cf {
+		addViol(f.idx, f.v)
+	}
+	rep.Set("client_calls", ccalls)
 	rep.Set("history_pairs", hpairs)
 	rep.Set("history_reads", hreads)
 	rep.Set("history_outcomes", houtcomes)
@@ -743,6 +753,7 @@ func run() int {
 		"History phase: per wallet, 5 pasts of the path (another wallet saved earlier with the same key, 16 and 32 bytes; with another key, 16 and 32 bytes; the same wallet saved earlier with a key of the other length), "+
 		"each followed by the real second SaveWallet; the directory as SaveWallet left it is restored before every read; every truncation, two (thorough: five) values per byte position, the earlier key, 8 unrelated keys and every 7th key bit flip; "+
 		"the answer must be the wallet saved last or an error. "+
+		"Client phase: a walletmiddleware.Client that holds a wallet re-reads a damaged / foreign-keyed file (every 11th byte altered, truncations, a foreign file): the read must fail, the client must keep answering with the wallet it held or say it is not ready, and signing must not crash. "+
 		"Retention phase: the encodings of all wallets are kept while the others are encoded and decoded afterwards; six wallets/keys are saved in a row and all read back afterwards. "+
 		"exhaustive=true means every planned case of this alphabet was executed before the internal deadline.")
 	rep.Assume("AES-GCM (crypto/aes, crypto/cipher) is trusted: a forged tag is accepted with probability 2^-128, so 'error for every altered byte' is decided for these six nonces and generalises to other nonces only through that argument")
